@@ -289,7 +289,8 @@ fn check_minmax(xs: &[f64], e: &Embedding, cfg: &Value, by_ref: bool, rep: &mut 
 pub fn direct_rayon(seed: u64, max_n: usize, reps: usize, rep: &mut Report) {
     let mut rng = Xoshiro256PlusPlus::seed_from_u64(seed);
     let alphabet = [-3i64, -1, 0, 2, 3];
-    let mut ns: Vec<usize> = vec![0, 1, 2, 3, 5, 17, 100, 1000];
+    // 150,000: both halves of the top-level join hold more than 2^16 items
+    let mut ns: Vec<usize> = vec![0, 1, 2, 3, 5, 17, 100, 1000, 150_000];
     let mut k = 10_000;
     while k <= max_n {
         ns.push(k);
